@@ -558,10 +558,11 @@ def ipv6(s):
 
 def ipaddr_or_hostname(s):
     if not is_ascii(s):
-        for c in s:
-            if ord(c) > 127 and c.isalpha():
-                return (UNJ, "non-ASCII letters (internationalised names): "
-                        "documentation silent")
+        # host names are ASCII (letters, digits, '-', '.', '_'): an
+        # internationalised name is written in its ASCII (punycode) form.
+        # Until seeded round 5 non-ASCII letters were unjudged here, which
+        # hid a converter that lower-cases before it validates (U+212A
+        # KELVIN SIGN lower-cases to 'k').
         return (ERR,)
     if ":" in s:
         v = ipv6(s)
